@@ -237,26 +237,25 @@ def run_unit(unit, template_path, repo_root, build_dir, mutate_text=None, suffix
 
 
 def vacuity_twin(fn_id):
-    """mutate_text callback: append `ensures false` to the contract of one function; the twin must FAIL."""
+    """mutate_text callback: add `false` to the postconditions of one function; the twin must FAIL."""
     def mut(text, bu):
         f = next(x for x in bu.fns if x["id"] == fn_id)
         lines = text.split("\n")
-        # find the body-opening line: first line in the fn's generated range that is exactly '{' or ends the contract
-        # the contract was spliced between signature and body; insert right before the body's first line.
-        # The body starts at the first line (after gen_start) whose stripped text starts with '{'.
+        body = None
         for k in range(f["gen_start"], f["gen_end"] + 1):
             if lines[k - 1].lstrip().startswith("{"):
-                has_ens = any(re.match(r"\s*ensures\b", lines[j - 1]) for j in range(f["gen_start"], k))
-                ins = "        false, //# VACUITY-TWIN" if has_ens else "        ensures false, //# VACUITY-TWIN"
-                # make sure the previous clause ends with a comma
-                j = k - 2
-                while j >= f["gen_start"] and not lines[j].strip():
-                    j -= 1
-                prev = lines[j]
-                code = prev.split("//#")[0].rstrip()
-                if has_ens and not code.endswith(","):
-                    lines[j] = code + ", " + (("//#" + prev.split("//#", 1)[1]) if "//#" in prev else "")
-                lines.insert(k - 1, ins)
+                body = k
+                break
+        if body is None:
+            raise LostAnchor(f"vacuity twin: body of {fn_id} not found")
+        for k in range(f["gen_start"], body):
+            if re.match(r"\s*ensures\b", lines[k - 1]):
+                lines[k - 1] = re.sub(r"\bensures\b", "ensures false, /* VACUITY-TWIN */", lines[k - 1], count=1)
                 return "\n".join(lines)
-        raise LostAnchor(f"vacuity twin: body of {fn_id} not found")
+        for k in range(f["gen_start"], body):
+            if re.match(r"\s*decreases\b", lines[k - 1]):
+                lines.insert(k - 1, "    ensures false, /* VACUITY-TWIN */")
+                return "\n".join(lines)
+        lines.insert(body - 1, "    ensures false, /* VACUITY-TWIN */")
+        return "\n".join(lines)
     return mut
